@@ -11,7 +11,7 @@ QUICK_S, THOROUGH_S = 60, 420
 def canon(x, n=4):
     """observable value of a result: languages for automata / grammars / expressions, the value itself otherwise"""
     c = type(x).__name__
-    if c == 'DFA': return ['L', sorted(ref.dfa_lang(x, n))]
+    if c == 'DFA': return ['L', sorted(ref.dfa_lang(x, min(9, max(n, len(x.Q)))))]      # long enough to tell the residues of a counter apart
     if c == 'NFA': return ['L', sorted(ref.nfa_lang(x, n))]
     if c == 'PDA': return ['L', sorted(ref.pda_lang(x, min(n, 3)))]
     if c == 'CFG': return ['L', sorted(ref.cfg_lang(x, min(n, 3) if len(x.R) <= 40 else (2 if len(x.R) <= 400 else 1)))]
@@ -61,6 +61,14 @@ def inputs(seed, count):
         out.append(('CFG', [E.random_cfg(rnd, nv=3, max_rules=2, max_rhs=3)]))
         out.append(('RX', [E.random_regexp(rnd, rnd.randint(2, 5), 'ab')]))
         out.append(('TM', [E.random_tm(rnd)]))
+        # deeper state spaces: counters modulo k (states distinguishable only after several steps) and larger random automata;
+        # iteration order of a set of k strings differs between hash seeds in many more ways than for 2-4 states
+        k = (4, 6, 8, 5, 7, 9)[i % 6]
+        names = ['s%d' % j for j in range(k)]
+        fin = {names[0], names[k // 2]} if k % 2 == 0 else {names[0]}
+        out.append(('DFA', [build({'type': 'DFA', 'Q': names, 'Sigma': ['a', 'b'], 'q0': names[rnd.randrange(k)], 'F': sorted(fin),
+                                   'delta': [[names[j], 'a', names[(j + 1) % k]] for j in range(k)] + [[names[j], 'b', names[j]] for j in range(k)]})]))
+        out.append(('DFA', [E.random_dfa(rnd, rnd.randint(5, 7), 'ab')]))
     return out
 
 
